@@ -110,6 +110,11 @@ pub fn check_val(cell: &Cell, v: &Val) -> Option<(String, String)> {
         Fam::Gamma => p[0].is_infinite() || p[1].is_infinite(),
         // documented: +inf when the proposal u^(-1/(s-1)) overflows the float type; with u in (0,1] on the
         // 2^-53 (f64) / 2^-24 (f32) grid that is possible only for (s-1) <= bits*ln2/ln(MAX)
+        // Zipf with n = inf: documented (fix 2c..): infinity when the proposal overflows, same condition as Zeta
+        Fam::Zipf if p[0].is_infinite() => {
+            let (bits, lnmax) = if cell.ft == Ft::F32 { (24.0, (f32::MAX as f64).ln()) } else { (53.0, f64::MAX.ln()) };
+            x > 0.0 && (p[1] - 1.0) <= bits * std::f64::consts::LN_2 / lnmax * 1.0001
+        }
         Fam::Zeta => {
             let (bits, lnmax) = if cell.ft == Ft::F32 { (24.0, (f32::MAX as f64).ln()) } else { (53.0, f64::MAX.ln()) };
             x > 0.0 && (p[0] - 1.0) <= bits * std::f64::consts::LN_2 / lnmax * 1.0001
